@@ -82,9 +82,9 @@ Proof.
 Qed.
 
 Lemma n3_hash_refuted :
-  known_C13_n3 wf_doc db_new = false /\ known_C13_n3_literal wf_doc = false /\
+  known_C13_n3 wf_doc db_new = false /\ known_C13_n3_literal wf_doc = false /\ known_C13_n3_hash wf_doc = true /\
   ~ (forall lq, In lq (den (load_n3 (render_doc wf_doc) db_new)) <-> In lq (den db_new) \/ In lq (map lq_of4 (triples_of wf_doc))).
 Proof.
-  split; [vm_compute; reflexivity|]. split; [vm_compute; reflexivity|].
+  split; [vm_compute; reflexivity|]. split; [vm_compute; reflexivity|]. split; [vm_compute; reflexivity|].
   apply (refute _ _ _ wf_missing); [vm_compute; reflexivity | vm_compute; left; reflexivity].
 Qed.
